@@ -469,6 +469,7 @@ namespace
     if (eb.e != nullptr)
       fprintf (out, "CONTRACT parse-ok-with-error\n");
     fprintf (out, "ok\n");
+    fflush (out);	// so that a watchdog kill during execution is told from one during parsing
     if (a.count ("exec"))
       {
 	long lim = a.count ("lim") ? atol (a["lim"].c_str ()) : 50;
@@ -661,7 +662,15 @@ namespace
 	else
 	  {
 	    fprintf (out, "r %s\n", canon_stack (*o).c_str ());
-	    zw_stack_destroy (o);
+	    if (a.count ("keep"))
+	      {
+		// the yielded stack outlives its result set (and query)
+		if (stacks.count (a["keep"]))
+		  zw_stack_destroy (stacks[a["keep"]]);
+		stacks[a["keep"]] = o;
+	      }
+	    else
+	      zw_stack_destroy (o);
 	  }
       }
     else if (c == "rdestroy")
@@ -751,15 +760,19 @@ main (int argc, char **argv)
 #endif
       dispatch (toks);
       alarm (0);
-      std::string err = take_stderr ();
-      if (! err.empty ())
-	fprintf (out, "s %s\n", hex (err).c_str ());
+      long delta = 0;
 #if HAVE_SAN
       if (track)
-	fprintf (out, "m %ld\n",
-		 (long) __sanitizer_get_current_allocated_bytes ()
-		 - (long) before);
+	delta = (long) __sanitizer_get_current_allocated_bytes ()
+	  - (long) before;
 #endif
+      {
+	std::string err = take_stderr ();
+	if (! err.empty ())
+	  fprintf (out, "s %s\n", hex (err).c_str ());
+      }
+      if (track)
+	fprintf (out, "m %ld\n", delta);
       fprintf (out, ".\n");
       if (toks[0] != "run" && toks[0] != "parselen" && toks[0] != "pull")
 	fflush (out);
